@@ -99,6 +99,13 @@ CHECKS["C17"] = ("differential property-based testing (Hypothesis): generated sy
             "drawn first-use order and compared call by call with the direct-reference rendering; plus the same class name declared in two modules.",
             "Trusted: the renderer of the direct-reference program (vf/checks/c17.py:render_ref); vf/oracle.py:plain; (exception class, item) as error kind.", "3/C17")
 
+CHECKS["C13"] = ("property-based testing (Hypothesis) with an independent validator: generated JSON-expressible types / data classes x modes x views; schema validity and output validation by the jsonschema package; properties/required/additionalProperties established by behavioural probes of the parser",
+            "hypothesis",
+            "Exploration: generated types (constrained, containers, unions, xor, literals, enums) and data classes (aliases, required, conforming defaults, no_input/no_output, per-field mode, "
+            "addition, nested classes) in modes {None,r,w,a} given to the class or to the generator; the document is checked with Draft202012Validator.check_schema, every accepted input's "
+            "JSON-encoded output is validated against the output schema, and the input schema's structure is compared with what the parser does on probe inputs.",
+            "Trusted: jsonschema 4.26 (Draft 2020-12), Python json, one known-valid probe value per field type; silent zones in ASSUMPTIONS.", "3/C13")
+
 NOT_YET = "check not built yet in this round (planned, see DESIGN.md section 3)"
 
 
